@@ -53,6 +53,29 @@ def check_nonint(rep, run: Run):
                        "the distance returned with the matching is derived differently (through the solver's output) from the "
                        "one returned without; whether the two agree depends on solver optimality, which is not decided here")
         return
+    # both are sums of entries of the cost matrix: they must read the same cells (an identity test on random values cannot see
+    # a re-mapped index — the entries are opaque there)
+    def cells(e):
+        out = []
+        for x in sym.walk(e):
+            if x[0] == "at" and len(x[3]) == 2:
+                idx = x[3]
+                ivs = sorted({v for t_ in idx if isinstance(t_, sym.Expr) for v in sym.free_ivars(t_)})
+                ren = tuple(idx)
+                for k_, v in enumerate(ivs):
+                    ren = tuple(sym.subst_ivar(t_, v, (f"$c{k_}", 0)) if isinstance(t_, sym.Expr) else t_ for t_ in ren)
+                out.append((x[1], ren))
+        return out
+    ca, cb = cells(base), cells(other)
+    if ca and cb and {u for u, _ in ca} == {u for u, _ in cb} and len(ca) == len(cb) == 1 and ca[0][1] != cb[0][1]:
+        remapped = lambda c_: any(y[0] == "ite" for t_ in c_[1] if isinstance(t_, sym.Expr) for y in sym.walk(t_))
+        odd = ca[0] if remapped(ca[0]) and not remapped(cb[0]) else cb[0]
+        rep.refuted("MT-NONINT", fi, ev["node"],
+                    f"with matching=True the distance sums the cost matrix at [{sym.show(odd[1][0])[:70]}, {sym.show(odd[1][1])[:70]}] "
+                    f"instead of the solver's own (row, column) pairs: indices re-mapped to -1 read the last row / column, so the "
+                    f"value differs from the one returned without the matching",
+                    construct=f"{run.qual}: distance returned with the matching")
+        return
     ok, w = symeval.equivalent(base, other, trials=40)
     if ok is True:
         rep.discharged("MT-NONINT", fi, ev["node"], "the two returned distances are the same function (identity-tested)")
